@@ -83,6 +83,24 @@ Theorem C33_lua_templates :
 Proof. exact lua_templates. Qed.
 Print Assumptions C33_lua_templates.
 
+(* The offset bound of the domain is sharp: from 10^14 on, Lua's "%.14g" number
+   formatting ([lua_fmt]: conversion to the nearest double, 14 significant digits
+   rounded to even, exponent form) produces e.g. 1e+14, and the receiving node rejects
+   the message (ok = false), for every builder that carries an offset. *)
+Theorem C33_lua_large_offset_rejected :
+  forall off epoch prev payload,
+    LUA_PLAIN <= off ->
+    N.of_nat (length prev) < LUA_PLAIN -> N.of_nat (length payload) < LUA_PLAIN ->
+    hdr_ok epoch = true ->
+    (forall tpl, tpl = lua_stream_plain \/ tpl = lua_list_plain ->
+       exists b r, eval_tpl (mkEnv off epoch prev payload) tpl = Some b /\
+                   extract true b = Ret r /\ p_ok r = false) /\
+    (forall tpl, tpl = lua_stream_delta \/ tpl = lua_list_delta ->
+       exists b r, eval_tpl (mkEnv off epoch prev payload) tpl = Some b /\
+                   extract true b = Ret r /\ p_ok r = false).
+Proof. exact lua_large_offset_rejected. Qed.
+Print Assumptions C33_lua_large_offset_rejected.
+
 (* [hdr_ok] is the weakest condition for positioned frames: without it the round trip fails. *)
 Theorem C33_positioned_epoch_condition_necessary :
   forall fixed off epoch payload,
@@ -143,3 +161,11 @@ Example C33_ex_malformed_not_panic :
   extract true [95;95;112;95;95;120] = Ret (mkPush [120] PPub 0 [] false [] false) /\
   extract true [95;95;100;49;58;49;58;101;58;51;58;97;98;99] = Ret (mkPush [] PPub 0 [] false [] false).
 Proof. vm_compute. auto. Qed.
+
+Example C33_ex_lua_fmt :
+  lua_fmt 99999999999999 = dec 99999999999999 /\
+  lua_fmt 100000000000000 = [49;101;43;49;52] /\                                  (* 1e+14 *)
+  lua_fmt 123456789012345678 = [49;46;50;51;52;53;54;55;56;57;48;49;50;51;53;101;43;49;55] /\   (* 1.2345678901235e+17 *)
+  lua_fmt 999999999999995 = [49;101;43;49;53] /\                                  (* carry: 1e+15 *)
+  lua_fmt 18446744073709551615 = [49;46;56;52;52;54;55;52;52;48;55;51;55;49;101;43;49;57].   (* 1.844674407371e+19 *)
+Proof. vm_compute. repeat split; reflexivity. Qed.
